@@ -276,9 +276,9 @@ func cmdCheck(args []string) {
 		solveCacheDir = filepath.Join(*verif, "work", "solvecache")
 		os.MkdirAll(solveCacheDir, 0o755)
 	}
-	opts := SolveOpts{WorkDir: dir, PrimaryMs: 4000, SecondaryMs: 10000, KeepFiles: *keep}
+	opts := SolveOpts{WorkDir: dir, PrimaryMs: 8000, SecondaryMs: 20000, KeepFiles: *keep}
 	if tier == "thorough" {
-		opts = SolveOpts{WorkDir: dir, PrimaryMs: 10000, SecondaryMs: 60000, AllSolvers: true, KeepFiles: *keep}
+		opts = SolveOpts{WorkDir: dir, PrimaryMs: 20000, SecondaryMs: 60000, AllSolvers: true, KeepFiles: *keep}
 	}
 	stats := &SolveStats{}
 	// pass 1: encode everything (no solving) to learn which obligations the property claims
